@@ -81,6 +81,15 @@ fn run_text_hist(ctx: &mut Ctx, partials: &[PartialDef], texts: &[&str], datas: 
                     .map(|h| h.join().unwrap_or(Obs::Panic("reference thread".into())))
                     .unwrap_or(Obs::Panic("reference thread".into()))
             });
+            // … and a process of its own (nothing static or thread-local can be shared with it)
+            let fresh = if silent.contains(ti) {
+                fresh
+            } else {
+                match render_in_child(partials, texts[*ti], &datas[*di]) {
+                    Some(tok) if tok != fresh.tokens() => Obs::Panic(format!("fresh process says {}", tok)),
+                    _ => fresh,
+                }
+            };
             if silent.contains(ti) {
                 // too large to print: only its effect on what follows is observed
                 continue;
@@ -134,6 +143,29 @@ fn text_histories(ctx: &mut Ctx) {
     }
     dh.push(vec![(0, 3), (1, 2), (0, 2), (1, 3), (1, 1)]);
     run_text_hist(ctx, &deep, &dtexts, &ddatas, dh, &[]);
+    // filters that parse their input (dates, numbers): inputs that differ only in letter case or in
+    // surrounding blanks are different inputs; what one of them gave must not colour the other
+    let ptexts = [
+        "[{{ d | date: '%Y-%m-%d' }}]",
+        "{{ d | date: '%H:%M' }}|{{ n | plus: 1 }}|{{ n | times: 2 }}",
+        "{{ d | upcase }}|{{ d | downcase | date: '%Y' }}",
+    ];
+    let mkd = |d: &str, n: &str| {
+        let mut o = Object::new();
+        o.insert("d".into(), Value::scalar(d.to_string()));
+        o.insert("n".into(), Value::scalar(n.to_string()));
+        o
+    };
+    let pdatas = [
+        mkd("18 Apr 2018 10:00:00", "7"), mkd("18 APR 2018 10:00:00", " 7"), mkd(" 18 Apr 2018 10:00:00 ", "7 "), mkd("18 apr 2018 10:00:00", "07"),
+        mkd("2018-04-18 10:00:00 +0000", "7.0"), mkd("2018-04-18 10:00:00 +0000 ", "7.0 "), mkd("1 March 2018", "x"), mkd("1 MARCH 2018", "X"),
+    ];
+    let mut ph: Vec<Vec<(usize, usize)>> = Vec::new();
+    for t in 0..ptexts.len() {
+        ph.push((0..pdatas.len()).map(|d| (t, d)).collect());
+        ph.push((0..pdatas.len()).rev().map(|d| (t, d)).collect());
+    }
+    run_text_hist(ctx, &[], &ptexts, &pdatas, ph, &[]);
 }
 
 pub fn run(ctx: &mut Ctx) {
